@@ -718,6 +718,45 @@ func (m *Monitors) budget(inv *simapi.Invocation, v *ERSView, podsByNode map[str
 		m.viol("C03", "C03.cap", map[string]string{"mixed": "sim", "stuck": fmt.Sprint(stuck > 0)}, inv, d)
 		m.viol("C09", "C09.delete-cap", map[string]string{"sim": "true"}, inv, d)
 	}
+	// C09 slow-start ramp: creates of this sync <= min(maxParallelPodCreation, (1+floor(t/interval))*increase),
+	// t since the Active condition (as read) last became true; the more tolerant of the invocation's
+	// first and last instant is used
+	creates := 0
+	for _, c := range inv.Calls {
+		if c.Verb == "create" && c.Kind == simapi.KindPod {
+			creates++
+		}
+	}
+	if creates > 0 && ru.SlowStartAdditiveIncrease != nil && ru.SlowStartIntervalDuration != nil && ru.MaxParallelPodCreation != nil && ru.SlowStartIntervalDuration.Duration > 0 {
+		inc, ok := kit.Resolve(ru.SlowStartAdditiveIncrease, n)
+		if ok {
+			bound := 0
+			for _, now := range instants {
+				t := time.Duration(0)
+				if c := kit.Cond(&v.RS.Status, v1.ConditionTypeActive); c != nil && c.Status == corev1.ConditionTrue {
+					t = now.Sub(c.LastTransitionTime.Time)
+				}
+				if t < 0 {
+					t = 0
+				}
+				b := (1 + int(t/ru.SlowStartIntervalDuration.Duration)) * inc
+				if b > int(*ru.MaxParallelPodCreation) {
+					b = int(*ru.MaxParallelPodCreation)
+				}
+				if b > bound {
+					bound = b
+				}
+			}
+			ctx.Count("C09.sim-creating-syncs-judged")
+			if bound < len(T) {
+				ctx.Count("C09.sim-creating-syncs-with-binding-ramp")
+			}
+			if creates > bound {
+				m.viol("C09", "C09.create-bound", map[string]string{"sim": "true"}, inv, map[string]any{"creates": creates, "bound": bound, "targeted": n, "increase": ru.SlowStartAdditiveIncrease.String(),
+					"interval": ru.SlowStartIntervalDuration.Duration.String(), "maxParallel": *ru.MaxParallelPodCreation, "activeCondition": fmt.Sprintf("%+v", kit.Cond(&v.RS.Status, v1.ConditionTypeActive))})
+			}
+		}
+	}
 }
 
 // ---- C12: an invocation only touches its own EDS's objects --------------------------------------------
